@@ -31,6 +31,8 @@ def main():
     ap.add_argument('--replay')
     ap.add_argument('--no-build', action='store_true')
     args = ap.parse_args()
+    if args.replay:
+        args.replay = os.path.abspath(args.replay)
     seed = int(os.environ.get('VERIF_SEED', '20261001'))
     prop = args.prop.upper()
     ctx = common.Ctx(prop, args.tier if args.tier in ('quick', 'thorough') else 'quick', seed)
